@@ -12,6 +12,7 @@ LEVEL_TEXT = ("Edit-script auditing: for derived (edited) pairs, independent pai
               "every non-identifier node of both sides exactly once, pair only nodes of the same type, have an empty delta "
               "exactly when the trees are equal (independent canonical form), equal the delta_only script plus Keep edits, "
               "and leave both inputs untouched (deep fingerprint).")
+LEVEL_TEXT += (' Pairs that differ only in the value of a string or flag argument of an inner node (join kind / side, window frame kind, TRIM position ...) are part of the workload.')
 LEVEL_NOTE = "exactly-once accounting is done over object identities, or per-class multisets when diff() had to copy shared inputs"
 TECHNIQUE = "runtime monitoring: exactly-once / conservation oracle over recorded edit scripts"
 RULE = ("pairs (q, structural edit of q) from the query generator's own derivation, pairs of independent statements, "
@@ -180,6 +181,26 @@ SWAPS = [("CONCAT_WS('-', a, b)", "CONCAT('-', a, b)"), ("TRY_CAST(a AS INT)", "
 HIVE_SWAPS = [("SELECT k, v FROM t SORT BY k, v", "SELECT k, v FROM t ORDER BY k, v"), ("SELECT k FROM t CLUSTER BY k", "SELECT k FROM t DISTRIBUTE BY k")]
 
 
+# pairs whose only difference is the *value* of a non-expression argument (a string or a flag) of an inner node
+ARG_SWAPS = [("SELECT * FROM a LEFT JOIN b ON a.x = b.x", "SELECT * FROM a RIGHT JOIN b ON a.x = b.x"),
+             ("SELECT * FROM a INNER JOIN b ON a.x = b.x", "SELECT * FROM a CROSS JOIN b ON a.x = b.x"),
+             ("SELECT * FROM a LEFT JOIN b ON a.x = b.x", "SELECT * FROM a FULL JOIN b ON a.x = b.x"),
+             ("SELECT * FROM a LEFT SEMI JOIN b ON a.x = b.x", "SELECT * FROM a LEFT ANTI JOIN b ON a.x = b.x"),
+             ("SELECT * FROM a INNER JOIN b USING (x)", "SELECT * FROM a OUTER JOIN b USING (x)"),
+             ("SELECT SUM(a) OVER (ORDER BY b ROWS BETWEEN 1 PRECEDING AND CURRENT ROW) FROM t", "SELECT SUM(a) OVER (ORDER BY b RANGE BETWEEN 1 PRECEDING AND CURRENT ROW) FROM t"),
+             ("SELECT SUM(a) OVER (ORDER BY b ROWS BETWEEN 1 PRECEDING AND 2 FOLLOWING) FROM t", "SELECT SUM(a) OVER (ORDER BY b ROWS BETWEEN 1 FOLLOWING AND 2 FOLLOWING) FROM t"),
+             ("SELECT SUM(a) OVER (ORDER BY b ROWS BETWEEN UNBOUNDED PRECEDING AND CURRENT ROW) FROM t", "SELECT SUM(a) OVER (ORDER BY b ROWS BETWEEN CURRENT ROW AND CURRENT ROW) FROM t"),
+             ("SELECT TRIM(LEADING 'x' FROM s) FROM t", "SELECT TRIM(TRAILING 'x' FROM s) FROM t"),
+             ("SELECT a FROM t ORDER BY a NULLS FIRST", "SELECT a FROM t ORDER BY a NULLS LAST"),
+             ("SELECT a FROM t ORDER BY a DESC, b", "SELECT a FROM t ORDER BY a, b DESC"),
+             ("SELECT a FROM t UNION SELECT a FROM u", "SELECT a FROM t UNION ALL SELECT a FROM u"),
+             ("SELECT a FROM t FOR UPDATE", "SELECT a FROM t FOR SHARE"),
+             ("SELECT a FROM t TABLESAMPLE BERNOULLI (10)", "SELECT a FROM t TABLESAMPLE SYSTEM (10)"),
+             ("CREATE TEMPORARY TABLE t (a INT)", "CREATE TABLE t (a INT)"),
+             ("CREATE TABLE t (a INT)", "CREATE VIEW t (a INT)"),
+             ("SELECT a FROM t WHERE s LIKE 'x' ESCAPE 'y'", "SELECT a FROM t WHERE s LIKE 'x' ESCAPE 'z'")]
+
+
 SIMILAR_NUM = ["10", "100", "1000", "10000", "1000000", "11", "1111", "111111", "1212", "121212", "1000.0", "0.0001", "0.01"]
 SIMILAR_STR = ["'aa'", "'aaaa'", "'aaaaaaaa'", "'abab'", "'abababab'", "'xyxy'", "'xy'", "'2020-02-02'", "'2020-02-20 20:20:20'"]
 
@@ -216,11 +237,17 @@ def run_case(ctx, i):
     read = None
     try:
         if kind == "class-swap":
-            if rng.random() < 0.15:
+            r0 = rng.random()
+            if r0 < 0.15:
                 a, b = rng.choice(HIVE_SWAPS)
                 if rng.random() < 0.5:
                     a, b = b, a
                 read = "hive"
+            elif r0 < 0.45:
+                a, b = rng.choice(ARG_SWAPS)
+                if rng.random() < 0.5:
+                    a, b = b, a
+                ctx.count("kind:arg-value-swap")
             else:
                 a, b, read = class_swap(rng)
             s, t = sqlglot.parse_one(a, read=read), sqlglot.parse_one(b, read=read)
